@@ -97,7 +97,18 @@ PROPS: Dict[str, Dict[str, Any]] = {
                          "C05_optional_both_errs", "C05_maybe_nothing", "C05_maybe_just_valid",
                          "C05_maybe_just_invalid", "C05_maybe_other", "C05_lazy_run", "C05_lazy", "C05_knr_valid",
                          "C05_knr_invalid", "C05_user", "C05_always", "C05_map_valid", "C05_map_invalid",
-                         "C05_recursive_terminates", "run_mono", "Run.unique"], "stream": "core", "opts": {"salt": "c05", "gen": ["streams", "gen_wrapper_case"]},
+                         "C05_recursive_terminates", "run_mono", "Run.unique",
+                         "src_union_sync", "src_union_async", "src_union_uses", "unionSync_eq", "unionAsync_eq",
+                         "uBody_exec", "uforFold_union"],
+            "modules": ["KodaModel.Properties.C05", "KodaModel.Properties.C05Src"],
+            "level_note": "the union loop is tied to the source twice: (1) TRANSLATOR - harness/pysrc.py rewrites "
+                          "Generated/UnionSrc.lean from the AST of _union_validator / _union_validator_async (_internal.py; "
+                          "UnionValidator and OptionalValidator only delegate to them: src_union_uses) on every run, and "
+                          "src_union_sync / src_union_async prove that interpreting the translated loop (KodaModel/PyUnion.lean: "
+                          "for / early return / append, both ways of calling a variant) is the model's unionStep for every list "
+                          "of variants of either flavour and every input; (2) the correspondence stream.  Maybe / Lazy / "
+                          "KeyNotRequired / cache wrappers: hand-modelled, correspondence only",
+            "stream": "core", "opts": {"salt": "c05", "gen": ["streams", "gen_wrapper_case"]},
             "quick_n": 6000, "thorough_n": 100000, "fields": ["out", "trace"]},
     "C06": {"modules": ["KodaModel.Properties.C06", "KodaModel.Properties.C06Sync"],
             "level_note": "C06_agree: for every tree and fuel, when the sync call does not raise its guard error both modes return "
